@@ -460,7 +460,9 @@ class Walker:
                 s_t.add(Event("return", stmt, None, self.frame, TRUTHY))
                 s_f.add(Event("return", stmt, None, self.frame, FALSY))
                 return [("return", TRUTHY, s_t), ("return", FALSY, s_f)]
-            s.add(Event("return", stmt, None, self.frame, v))
+            ev = Event("return", stmt, None, self.frame, v)
+            ev.defs = dict(s.defs) if s.defs else None
+            s.add(ev)
             return [("return", v, s)]
         return self._vals(self.eval(stmt.value, st), cont)
 
@@ -853,16 +855,20 @@ class Walker:
         # module-level constant?
         if func is not None and node.id in func.module.globals:
             vals = func.module.globals[node.id]
-            if len(vals) == 1 and isinstance(vals[0], ast.Constant) and not _is_global_written(self.prog, func.module, node.id):
-                return [("val", Const(vals[0].value), st)]
+            if len(vals) == 1 and not _is_global_written(self.prog, func.module, node.id):
+                lv = _literal(vals[0])
+                if lv is not NOCONST:
+                    return [("val", Const(lv), st)]
         return [("val", UNK, st)]
 
     def e_Attribute(self, node, st):
         d = dotted(node)
         if d and d.startswith("self.") and d.count(".") == 1 and self.frame[1] is not None:
             a = self.prog.class_attr(self.frame[1], node.attr)
-            if isinstance(a, ast.Constant) and not _attr_assigned_anywhere(self.prog, self.frame[1], node.attr):
-                return [("val", Const(a.value), st)]
+            if a is not None and not _attr_assigned_anywhere(self.prog, self.frame[1], node.attr):
+                lv = _literal(a)
+                if lv is not NOCONST:
+                    return [("val", Const(lv), st)]
         if d and self.frame[0] is not None:
             res = self.prog.resolve_dotted(self.frame[0].module, d) if not d.startswith("self") else None
             if res and res[0] in ("class", "func"):
@@ -1103,6 +1109,10 @@ class Walker:
                     and all(a.kind == "const" for a in args) and not kws:
                 try:
                     return [("val", Const(getattr(recv[0].value, node.func.attr)(*[a.value for a in args])), s)]
+                except (ValueError, IndexError) as exc:
+                    # a pure method that fails on these constants fails the same way at run time (str.index, ...)
+                    s.add(Event("raise", node, type(exc).__name__, self.frame, "implicit"))
+                    return [("raise", type(exc).__name__, s)]
                 except Exception:
                     pass
             return self._do_call(node, target, args, kws, s)
@@ -1141,6 +1151,7 @@ class Walker:
                 pass
 
         ev = Event("call", node, target, self.frame, {"args": args, "kws": kws})
+        ev.defs = dict(s.defs) if s.defs else None
         s.add(ev)
         out = []
         # -- designated raise points
@@ -1348,6 +1359,53 @@ def _is_global_written(prog: Program, mod, name: str) -> bool:
                 cache.update(n.names)
         mod._gw = cache
     return name in cache
+
+
+NOCONST = object()
+
+
+def _literal(node):
+    """Python value of a literal made of constants (tuples/lists/sets become tuples); NOCONST otherwise."""
+    if isinstance(node, ast.Constant):
+        return node.value
+    if isinstance(node, (ast.Tuple, ast.List, ast.Set)):
+        vals = [_literal(e) for e in node.elts]
+        return NOCONST if any(v is NOCONST for v in vals) else tuple(vals)
+    if isinstance(node, ast.Call) and isinstance(node.func, ast.Name) and node.func.id in ("frozenset", "tuple", "set", "list") \
+            and len(node.args) == 1 and not node.keywords:
+        return _literal(node.args[0])
+    if isinstance(node, ast.UnaryOp) and isinstance(node.op, ast.USub) and isinstance(node.operand, ast.Constant) \
+            and isinstance(node.operand.value, (int, float)):
+        return -node.operand.value
+    return NOCONST
+
+
+def const_value(prog: Program, node, func: Optional[FuncInfo], cls: Optional[ClassInfo]):
+    """Value of `node` when it is a literal, a module-level constant that is never rebound, or a class
+    attribute (self.X / cls.X / ClassName.X) that no method assigns; NOCONST otherwise."""
+    v = _literal(node)
+    if v is not NOCONST:
+        return v
+    if isinstance(node, ast.Name) and func is not None and node.id in func.module.globals:
+        vals = func.module.globals[node.id]
+        if len(vals) == 1 and not _is_global_written(prog, func.module, node.id) and node.id not in func.params:
+            local = any(isinstance(n, ast.Name) and n.id == node.id and isinstance(n.ctx, ast.Store) for n in ast.walk(func.node))
+            if not local:
+                return _literal(vals[0])
+        return NOCONST
+    if isinstance(node, ast.Attribute) and isinstance(node.value, ast.Name):
+        owner = None
+        if node.value.id in ("self", "cls") and cls is not None:
+            owner = cls
+        elif func is not None:
+            res = prog.resolve_dotted(func.module, node.value.id)
+            if res and res[0] == "class":
+                owner = res[1]
+        if owner is not None:
+            a = prog.class_attr(owner, node.attr)
+            if a is not None and not _attr_assigned_anywhere(prog, owner, node.attr):
+                return _literal(a)
+    return NOCONST
 
 
 def _attr_assigned_anywhere(prog: Program, cls: ClassInfo, attr: str) -> bool:
